@@ -161,9 +161,6 @@ def judge(res, lab, h, segs, extras, info, m):
     elif issued:
         res.count("close:returned")
     # correspondence with the model
-    if m == "gated":
-        res.count("oracle-only:gated")
-        return
     if m is None:
         res.fail("corr", dict(history=line), "a model answer", "bad-op", "the model driver rejected the history")
         return
